@@ -10,6 +10,7 @@ mod tables;
 mod tap;
 mod validate;
 mod vgen;
+mod text;
 
 fn main() {
     // panics of the library are caught with catch_unwind and reported as observations
@@ -30,6 +31,7 @@ fn main() {
         "psbt" => psbt::run(&args[2..]),
         "lift" => lift::run(&args[2..]),
         "validate" => validate::run(&args[2..]),
+        "text" => text::run(&args[2..]),
         other => {
             eprintln!("unknown engine {}", other);
             std::process::exit(2);
